@@ -65,7 +65,7 @@ func c16Gen(r *Rng, tier string, i int) Sx {
 		mask = (i*37 + r.Intn(3)) % 128
 	}
 	uses := r.Bool()
-	base := r.Pick([]string{"/", "/api/", "", "/v1/admin/", "api", "/a.b/"})
+	base := r.Pick([]string{"/", "/api/", "", "/v1/admin/", "api", "/a.b/", "/API/v1/", "/Orgs/"})
 	strict := r.Chance(1, 6)
 	kind := "ptr"
 	if r.Chance(1, 15) {
@@ -94,10 +94,20 @@ func c16Gen(r *Rng, tier string, i int) Sx {
 	if strings.Trim(base, "/") != "" {
 		g = "/" + strings.Trim(base, "/") + res
 	}
+	g0 := g
 	if ng > 0 {
 		g = "/g" + g
 	}
 	paths := []string{g, g + "/", g + "/create", g + "/7", g + "/7/edit", g + "/create/edit", g + "/7/x", g + "/x/y/z", "/", g + "x"}
+	// the same controller registered a second time under another base path (its route names are then taken over)
+	twice := kind == "ptr" && r.Chance(1, 5)
+	if twice {
+		g2 := "/zz" + g0
+		if ng > 0 {
+			g2 = "/g" + g2
+		}
+		paths = append(paths, g2, g2+"/create", g2+"/7", g2+"/7/edit")
+	}
 	var probes []Sx
 	for _, p := range paths {
 		for _, m := range rtMethods {
@@ -106,7 +116,7 @@ func c16Gen(r *Rng, tier string, i int) Sx {
 			}
 		}
 	}
-	return L(A("c16"), I(mask), B(uses), S(base), B(strict), A(kind), S(res), LS(probes), I(ng), I(nm))
+	return L(A("c16"), I(mask), B(uses), S(base), B(strict), A(kind), S(res), LS(probes), I(ng), I(nm), B(twice))
 }
 
 func c16Exec(c Sx) (out Sx) {
@@ -164,6 +174,8 @@ func c16Exec(c Sx) (out Sx) {
 		for k := 0; k < nm; k++ {
 			rm = append(rm, mk(60+k))
 		}
+		twice := len(c.List) >= 11 && c.List[10].Bool()
+		second := "/zz/" + strings.TrimLeft(base, "/")
 		if ng > 0 {
 			// group middleware added through Use inside the group: the slice grows by append
 			r.Group("/g", func() {
@@ -171,9 +183,15 @@ func c16Exec(c Sx) (out Sx) {
 					r.Use(h)
 				}
 				r.Resource(base, ctl, rm...)
+				if twice {
+					r.Resource(second, ctl, rm...)
+				}
 			})
 		} else {
 			r.Resource(base, ctl, rm...)
+			if twice {
+				r.Resource(second, ctl, rm...)
+			}
 		}
 		return false
 	}()
@@ -186,10 +204,11 @@ func c16Exec(c Sx) (out Sx) {
 	var names []string
 	byName := map[string]rux.RouteInfo{}
 	for _, ri := range infos {
-		if !seen[ri.Name] {
-			seen[ri.Name] = true
-			names = append(names, ri.Name)
-			byName[ri.Name] = ri
+		k := ri.Name + "\x00" + ri.Path
+		if !seen[k] {
+			seen[k] = true
+			names = append(names, k)
+			byName[k] = ri
 		}
 	}
 	sort.Strings(names)
@@ -198,7 +217,7 @@ func c16Exec(c Sx) (out Sx) {
 		ri := byName[n]
 		ms := append([]string{}, ri.Methods...)
 		sort.Strings(ms)
-		routes = append(routes, L(S(n), SL(ms), S(ri.Path), I(ri.HandlerNum)))
+		routes = append(routes, L(S(ri.Name), SL(ms), S(ri.Path), I(ri.HandlerNum)))
 	}
 	// every name must also be in NamedRoutes, and nothing else
 	var nn []string
